@@ -34,6 +34,12 @@ ASSUMPTIONS = [
     "helper classes without a declaration (Der2A, tildeFab, Dcov, ...) are only checked to be unusable in a "
     "symmetrised result (transform_tensor raises on None)",
     "premise H(-k)=U H(k)* U+ / H(-k)=D H(k) D and the analogous relations for every other matrix are verified to 1e-10",
+    "tolerance 1e-8 relative to an explicit scale: formula level max(1, largest |nn| / |trace_ln| entry at the two points); "
+    "calculator level (sum over band pairs of |factor_omega||factor_Efermi| at the k point) x (largest single matrix element over the "
+    "k alphabet of the model and of its symmetry-broken sibling), because both the energy factors and the matrix elements "
+    "can vanish by symmetry at the point under test",
+    "constructor / evaluation exceptions are skipped only when they mean 'this model lacks the matrices / the class has no such "
+    "knob / combination not implemented'; any other exception is a failure",
 ]
 
 TOL = 1e-8
@@ -112,6 +118,9 @@ def build_model(name, seed):
             }[name]
             s, info = sm.hand_system(seed=seed, tag=name, set_group=False, **spec)
             par, nw_orb, spinor = info["parities"], info["nw_orb"], info["spinor"]
+            sib, _ = sm.hand_system(seed=seed, tag=name, set_group=False, **dict(spec, gens=()))
+        if name in ("KaneMele", "Chiral_TR", "Haldane_d0"):
+            sib = sm.perturbed_copy(s, seed, name)
     ok, worst, where = sm.verify_symmetry(s, group, nw_orb, spinor, par, D_of=D_of, tol=1e-10)
     # a model that should break the other symmetry must really break it (otherwise odd quantities vanish)
     broken = {}
@@ -123,7 +132,9 @@ def build_model(name, seed):
     for sy in syms:
         O, tr = sm.GEN["T" if sy == "TR" else "I"]
         rep[sy] = D_of(O, tr) if D_of is not None else sm._orbital_D(O, tr, nw_orb, spinor, par)
-    meta = dict(ok=bool(ok), worst=float(worst), where=where, spinor=spinor, syms=syms, broken=broken, rep=rep)
+    # `sibling`: the same generic matrices without the symmetry projection; only used for scales (a quantity may vanish
+    # identically, element by element, in the symmetric model: shift current under PT ...)
+    meta = dict(ok=bool(ok), worst=float(worst), where=where, spinor=spinor, syms=syms, broken=broken, rep=rep, sibling=sib)
     _CACHE[key] = (s, meta)
     return s, meta
 
@@ -632,7 +643,8 @@ def run_dyncalc(case, system, meta, groups, nb, k):
             got = res[1].data
             skey = ("scale", case["model"], name, label, case["k"])
             if skey not in _CACHE:
-                alphabet = [dcls(system, grid=grid, k_list=np.array([np.array(kx, dtype=float)])) for kx in K_ALPHABET.values()]
+                alphabet = [dcls(sy, grid=grid, k_list=np.array([np.array(kx, dtype=float)])) for kx in K_ALPHABET.values()
+                            for sy in (system, meta["sibling"])]
                 _CACHE[skey] = natural_scale(calc, d1, alphabet)
             scale = max(1e-300, _CACHE[skey])
             err = float(np.abs(got - exp).max()) / scale
